@@ -222,6 +222,7 @@ func (manager *Manager) registerConvergence(conv Convergence) {
 			"address": conv.Address(),
 		}).Warn("Startup of CLA  failed, a retry should not be made")
 	} else {
+		simHook("register.store", conv.Address())
 		manager.convs.Store(conv.Address(), ce)
 	}
 }
